@@ -435,7 +435,8 @@ def write_probe(cx_rules_meta, out_dir):
     defs = open(os.path.join(vlib.VERIF, "translators", "samples", "c09_defs.rs")).read()
     src = ["#![allow(dead_code, unused_imports, non_camel_case_types)]",
            "use cglue::prelude::v1::*;", "use cglue::*;", "use cglue::arc::*;", "use cglue::boxed::*;", "use cglue::forward::*;",
-           "use cglue::trait_group::*;", "use core::marker::PhantomData;", defs,
+           "use cglue::trait_group::*;", "use cglue::vec::*;", "use cglue::slice::*;", "use cglue::option::*;", "use cglue::result::*;", "use cglue::callback::*;",
+           "use cglue::iter::*;", "use cglue::repr_cstring::*;", "use cglue::tuple::*;", "use core::marker::PhantomData;", defs,
            "pub struct NotSendButSync(std::sync::MutexGuard<'static, u32>);",
            "macro_rules! payload { ($t:ty) => { impl Foo for $t { fn get(&self, x: u32) -> u32 { x } fn set(&mut self, v: &[u8]) -> usize { v.len() } } impl Bar for $t { fn bar(&self) -> u8 { 0 } } } }",
            "payload!(u32); payload!(core::cell::Cell<u32>); payload!(NotSendButSync); payload!(std::rc::Rc<u32>);",
@@ -458,7 +459,9 @@ def write_probe(cx_rules_meta, out_dir):
                            % (idx, pc[0], pc[1], s_ty, s_ty, t_ty, t_ty))
                 rows.append({"rule": idx, "payload": pc, "src": s_ty, "tgt": t_ty})
             continue
-        if m["nparams"] >= 1 and m["family"] not in BASE_FAMILIES.values():
+        # rules of families that are not known base families are probed too when they are plain one-parameter rules (a NEW `unsafe impl Opaquable`):
+        # rustc then says directly whether the erased form gains a marker
+        if m["nparams"] >= 1 and m["family"] not in BASE_FAMILIES.values() and (m["nparams"] != 1 or m["opaquable"] or " @ " in m["name"]):
             continue
         needs_deref = any(x in m["name"] for x in ("trait object", "Grp"))
         if needs_deref and m["family"] not in DEREF_FAMILIES:
